@@ -121,7 +121,21 @@ def _worker(args):
         getattr(prop, fn)(acc, **kwargs)
         acc.deadline = None
         return ("ok", acc)
-    except BaseException:
+    except BaseException as e:
+        # An exception that escapes from pvl's own code into a place where the
+        # harness did not expect one is reported as a violation (with the shard as
+        # its replay), not as a harness error: the observation the property needs
+        # could not even be made.  Anything else is a harness error (exit 2).
+        tb = traceback.extract_tb(e.__traceback__)
+        pvl_dir = os.path.join(os.path.abspath(REPO), "pvl") + os.sep
+        inner = [fr for fr in tb if os.path.abspath(fr.filename).startswith(pvl_dir)]
+        if inner and tb and os.path.abspath(tb[-1].filename).startswith(pvl_dir) \
+                and not isinstance(e, (KeyboardInterrupt, SystemExit, MemoryError)):
+            fr = inner[-1]
+            sig = (f"{pid}/crash/{type(e).__name__}@"
+                   f"{os.path.basename(fr.filename)}:{fr.name}")
+            return ("crash", (sig, dict(shard=[fn, kwargs]),
+                              traceback.format_exc()[-1500:]))
         return ("err", f"{fn}({kwargs}):\n" + traceback.format_exc())
 
 
@@ -159,10 +173,24 @@ def write_replay(pid, signature, case, detail, tier, seed):
     return path
 
 
+def replay_case(prop, case):
+    """prop.replay(case), or - for a crash record - re-running its shard."""
+    if isinstance(case, dict) and set(case) == {"shard"}:
+        fn, kwargs = case["shard"]
+        status, payload = _worker((prop.ID, fn, kwargs, time.time() + 120))
+        if status == "crash":
+            return (payload[0], payload[2])
+        if status == "ok" and payload.failures:
+            sig = sorted(payload.failures)[0]
+            return (sig, payload.failures[sig][1][0][2])
+        return None
+    return prop.replay(case)
+
+
 def do_replay(prop, path):
     with open(path) as f:
         rec = json.load(f)
-    res = prop.replay(rec["case"])
+    res = replay_case(prop, rec["case"])
     if res is None:
         print(f"replay {path}: property held on this case")
         return 0
@@ -174,7 +202,7 @@ def do_replay(prop, path):
 
 def shrink_failure(prop, signature, case, budget_s=25.0):
     fn = getattr(prop, "shrink", None)
-    if fn is None:
+    if fn is None or (isinstance(case, dict) and set(case) == {"shard"}):
         return case
     t_end = time.time() + budget_s
 
@@ -185,7 +213,7 @@ def shrink_failure(prop, signature, case, budget_s=25.0):
         if time.time() > t_end:
             raise _Stop()
         try:
-            r = prop.replay(c)
+            r = replay_case(prop, c)
         except Exception:
             return False
         return r is not None and r[0] == signature
@@ -243,6 +271,10 @@ def main(argv=None):
             for status, payload in pool.imap_unordered(_worker, jobs):
                 if status == "ok":
                     total.merge(payload)
+                elif status == "crash":
+                    sig, case, detail = payload
+                    total.fail(sig, case, detail)
+                    total.evaluations += 1
                 else:
                     errors.append(payload)
         if errors:
@@ -318,7 +350,7 @@ def main(argv=None):
                 small = shrink_failure(prop, sig, case)
                 r = None
                 try:
-                    r = prop.replay(small)
+                    r = replay_case(prop, small)
                 except Exception:
                     r = None
                 if r is None or r[0] != sig:
